@@ -88,8 +88,6 @@ impl<'a> PrettyPrinter<'a> {
 
     /// In math mode, we have `$fun(1, 2; 3, 4)$ == $fun(#(1, 2), #(3, 4))$`.
     pub(super) fn convert_array(&'a self, ctx: Context, array: Array<'a>) -> ArenaDoc<'a> {
-        let ctx = ctx.with_mode(Mode::CodeCont);
-
         // Whether the array has parens.
         // This is also used to determine whether we need to add a trailing comma.
         // Note that we should not strip trailing commas in math.
@@ -98,6 +96,13 @@ impl<'a> PrettyPrinter<'a> {
             .children()
             .next()
             .is_some_and(|child| child.kind() == SyntaxKind::LeftParen);
+        // An array without parens is a row of a 2d math argument: its items are still math,
+        // e.g. a nested call `mat(vec(1; 2), 3; 4)` keeps its own semicolons.
+        let ctx = if is_explicit {
+            ctx.with_mode(Mode::CodeCont)
+        } else {
+            ctx
+        };
         let ends_with_comma = !is_explicit
             && array
                 .to_untyped()
